@@ -22,7 +22,10 @@ import (
 	"verifharness/hx"
 )
 
-func init() { drivers["controller"] = runController }
+func init() {
+	drivers["controller"] = runController
+	drivers["sleepdelete"] = runSleepDelete
+}
 
 // ---- stub transporter ----
 
@@ -348,8 +351,12 @@ func (s *scenario) deliver(x *sessInfo) bool {
 }
 
 func (s *scenario) client(sid string, x *sessInfo, tr *stubTr) {
+	s.clientWith(sid, x, tr, s.pickAddrs())
+}
+
+func (s *scenario) clientWith(sid string, x *sessInfo, tr *stubTr, mapped []string) {
 	m := &msg.NatHoleClient{TransactionID: fmt.Sprintf("tc%d", s.g.Intn(1000)), ProxyName: "p0", Sid: sid,
-		MappedAddrs: s.pickAddrs(), AssistedAddrs: cp(scnAssisted[s.g.Intn(len(scnAssisted))])}
+		MappedAddrs: mapped, AssistedAddrs: cp(scnAssisted[s.g.Intn(len(scnAssisted))])}
 	s.ev("EvClient %s %d", s.cmTerm(m), tr.id)
 	cmMapped := cp(m.MappedAddrs)
 	s.c.HandleClient(m, tr)
@@ -705,5 +712,84 @@ func runController(cfg *hx.RunCfg) error {
 		fails = []map[string]string{}
 	}
 	cfg.St["impl_failures"] = fails
+	return nil
+}
+
+// Driver "sleepdelete" (C20): the deferred delete after the post-response sleep, in REAL time (the 30000 ms are a
+// literal in HandleVisitor, so there is nothing a verif setter could shrink): one session that ends in an error pair
+// (sleep 30 s) and one with instructions of mode 0 row 0 (sleep 35 s).  The recipe runs it in the background.
+func runSleepDelete(cfg *hx.RunCfg) error {
+	log.InitLogger("/dev/null", "error", 0, true)
+	nathole.NatHoleTimeout = 2
+	dist := map[string]int{}
+	var mu sync.Mutex
+	c, _ := nathole.NewController(time.Hour)
+	s := &scenario{g: hx.NewGen(cfg.Seed), c: c, proxies: map[string]*proxyStub{}, auth: map[string]string{},
+		sks: map[string]bool{}, tss: map[int64]bool{}, dist: dist, mu: &mu}
+	for k := 0; k < 3; k++ {
+		s.trs = append(s.trs, &stubTr{id: k})
+	}
+	s.listen("p0", "sk0", []string{"*"})
+	mk := func(mapped []string) *msg.NatHoleVisitor {
+		m := s.mkVisitor("p0", true, false)
+		m.MappedAddrs = mapped
+		return m
+	}
+	x1 := s.visitor(mk([]string{"1.2.3.4:4000", "1.2.3.4:4000"}), s.trs[0], "alice")
+	if x1 == nil || !s.deliver(x1) {
+		return fmt.Errorf("sleepdelete: first session not created")
+	}
+	s.clientWith(x1.real, x1, s.trs[1], []string{"5.6.7.8:80", "5.6.7.8:70000"}) // out of range: error to both, sleep 30 s
+	s.complete(x1)
+	t1 := time.Now()
+	x2 := s.visitor(mk([]string{"1.2.3.4:4000", "1.2.3.4:4000"}), s.trs[0], "alice")
+	if x2 == nil || !s.deliver(x2) {
+		return fmt.Errorf("sleepdelete: second session not created")
+	}
+	s.clientWith(x2.real, x2, s.trs[2], []string{"5.6.7.8:80", "5.6.7.8:80"}) // mode 0 row 0: ReadTimeoutMs 5000, sleep 35 s
+	s.complete(x2)
+	t2 := time.Now()
+	if x1.state != "sleep" || x2.state != "sleep" {
+		return fmt.Errorf("sleepdelete: the exchanges did not complete")
+	}
+	s.observe()
+	time.Sleep(time.Until(t1.Add(28500 * time.Millisecond)))
+	s.observe() // both still asleep
+	time.Sleep(time.Until(t1.Add(31500 * time.Millisecond)))
+	s.ev("EvSleepDone %d", x1.idx)
+	x1.state = "done"
+	s.observe() // the error-pair session is gone, the other one still there
+	time.Sleep(time.Until(t2.Add(36500 * time.Millisecond)))
+	s.ev("EvSleepDone %d", x2.idx)
+	x2.state = "done"
+	s.observe() // table empty
+	left := len(c.VerifSessionIDs())
+	dist["sessions_left_after_sleep"] = left
+	dist["sleep_done"] = 2
+	var auth []string
+	for sk := range s.sks {
+		for ts := range s.tss {
+			auth = append(auth, fmt.Sprintf("(%s, %s, %s)", hx.HxS(sk), hx.Z(ts), hx.HxS(util.GetAuthKey(sk, ts))))
+		}
+	}
+	sort.Strings(auth)
+	cs := fmt.Sprintf("CCtl %s %s", hx.List(auth), hx.List(s.evs))
+	cf := &hx.CaseFile{Imports: "From FRP Require Import Corr.C20.\nOpen Scope Z_scope.\n", Typ: "case", Cases: []string{cs},
+		Tail: "\nDefinition M := Eval vm_compute in mismatches check_case cases.\nPrint M.\nDefinition NEVSLEEPDONE := Eval vm_compute in count_ev 8 cases.\nPrint NEVSLEEPDONE.\n"}
+	if err := cf.Write(cfg.Out); err != nil {
+		return err
+	}
+	cfg.St["cases"] = 1
+	cfg.St["distinct_nontrivial"] = 1
+	cfg.St["distribution"] = dist
+	smp := cs
+	if len(smp) > 700 {
+		smp = smp[len(smp)-700:]
+	}
+	cfg.St["samples"] = []map[string]string{{"case": "..." + smp}}
+	if s.fails == nil {
+		s.fails = []map[string]string{}
+	}
+	cfg.St["impl_failures"] = s.fails
 	return nil
 }
